@@ -45,8 +45,14 @@ def encode(t):
     """
     # Mapping from subterms to newly introduced variables
     subterm_dict = dict()
-    for i, subt in enumerate(logic_subterms(t)):
-        subterm_dict[subt] = Var('x' + str(i+1), BoolType)
+    # Names of the new variables must not clash with atoms of t
+    used_names = set(v.name for v in t.get_vars())
+    i = 0
+    for subt in logic_subterms(t):
+        i += 1
+        while 'x' + str(i) in used_names:
+            i += 1
+        subterm_dict[subt] = Var('x' + str(i), BoolType)
 
     # Collect list of equations
     eqs = []
